@@ -109,35 +109,37 @@ ENTRY = {'coq_dir': 'C05',
                'accept_pending, reject_pending, and next_connection_id as a draw from the shared counter) is executed by the TCP '
                'model, every event a poll of the TCP model emits is handled by the manager model one after the other (its calls '
                "executed before the next event is handled; the negotiate / accept results the handlers see are the TCP model's), "
-               'with TCP as the one installed transport (the per-transport contract theorems C05_tr_* hold for the WebSocket and '
-               'QUIC models as well; the composition theorem itself is stated for TCP). For EVERY history of outside inputs '
-               '(user / protocol side: dial requests by peer and by address incl. through the handle, address additions, closed '
-               'connections, accept futures; network / runtime: a socket arrives, an attempt of a pending future ends with an '
-               'identity or fails, a deadline fires, a poll) the manager is handed an event history that satisfies the transport '
-               "contract `feas` (C05_sys_feasible, C05_sys_step; proof: a coupling invariant between the manager's ledger and "
-               "the ledger of the TCP contract — what the manager thinks TCP owes is what TCP's ledger says, same peer named, "
-               'same counter — kept while the events of one poll are delivered one by one, using the C05_tcp contract theorems, '
-               "commutation of the manager's calls with the events not delivered yet, and the shape of a poll: events about "
-               'inbound sockets come last). Hence C05_sys_at_most_one_outcome, C05_sys_no_silence, C05_sys_no_wedge, '
-               'C05_sys_no_stuck hold for manager + TCP together with NO assumption about the transport; what is still assumed '
-               'is only the part of `feas` about the address store (choice_ok), the protocols (accept futures succeed) and that '
-               'open() / dial() of a shape-checked address return Ok (true in the TCP model). The network assumption is '
-               "explicit: quiescence is a statement about the TCP model's own ledger (C05_sys_quiescent), whatever the manager "
-               'waits for is backed by a pending un-cancelled future of the TCP model (C05_sys_owed_is_pending), and for each '
-               'such id there is an allowed network / runtime input — the deadline of the open fires, the dial attempt ends, the '
-               'transport is polled — whose handling hands the manager an answer for that id (C05_sys_progress): the only '
-               'liveness assumption left is that the network lets every pending future end (answer, failure or timeout) and the '
-               'runtime polls the transport.',
+               'with TCP as the one installed transport; coq/C05/TrCompose.v (theorems C05_sysT_*) is the same composition with '
+               'the transport tag abstracted: it holds for ANY ONE installed transport, in particular WebSocket alone, and '
+               'C05_sysT_calls_are_real / C05_sysT_transport_side_is_its_model say that the bookkeeping model inside the '
+               'composed system is the model of that transport (coq/Tcp/Variants.v) run on the real trait calls with the '
+               'canonical addresses of the dialled peer. For EVERY history of outside inputs (user / protocol side: dial '
+               'requests by peer and by address incl. through the handle, address additions, closed connections, accept futures; '
+               'network / runtime: a socket arrives, an attempt of a pending future ends with an identity or fails, a deadline '
+               'fires, a poll) the manager is handed an event history that satisfies the transport contract `feas` '
+               "(C05_sys_feasible, C05_sys_step; proof: a coupling invariant between the manager's ledger and the ledger of the "
+               "TCP contract — what the manager thinks TCP owes is what TCP's ledger says, same peer named, same counter — kept "
+               'while the events of one poll are delivered one by one, using the C05_tcp contract theorems, commutation of the '
+               "manager's calls with the events not delivered yet, and the shape of a poll: events about inbound sockets come "
+               'last). Hence C05_sys_at_most_one_outcome, C05_sys_no_silence, C05_sys_no_wedge, C05_sys_no_stuck hold for '
+               'manager + TCP together with NO assumption about the transport; what is still assumed is only the part of `feas` '
+               'about the address store (choice_ok), the protocols (accept futures succeed) and that open() / dial() of a '
+               'shape-checked address return Ok (true in the TCP model). The network assumption is explicit: quiescence is a '
+               "statement about the TCP model's own ledger (C05_sys_quiescent), whatever the manager waits for is backed by a "
+               'pending un-cancelled future of the TCP model (C05_sys_owed_is_pending), and for each such id there is an allowed '
+               'network / runtime input — the deadline of the open fires, the dial attempt ends, the transport is polled — whose '
+               'handling hands the manager an answer for that id (C05_sys_progress): the only liveness assumption left is that '
+               'the network lets every pending future end (answer, failure or timeout) and the runtime polls the transport.',
  'level_note': 'Trusted: Coq kernel, extraction, harness + ScriptedTransport hooks. Transport contract `feas` (calls succeed, '
                'each open is answered once per transport unless cancelled on it, cancel is effective, accept futures succeed, '
                'events come from installed transports) is an assumption of the C05 ledger theorems; it is a THEOREM about the '
                'transport models of all three socket transports (C05_tcp_* / C05_tr_*, see below), and the composition with the '
-               'manager model is proved for TCP as the only installed transport (C05_sys_*); in the manager stream two of the '
-               'three transports (TCP, WebSocket) are installed as scripted transports, QUIC is compiled out of the default '
-               'harness build; the address book is abstracted to the set of stored addresses (which of them '
-               'AddressStore::addresses(limit) hands out is an input validated by choice_ok; scores are C10; fewer than 64 '
-               'addresses per peer so that no eviction happens); the handle call and the execution of its command happen in one '
-               'step (the asynchronous gap between them is not modelled: C05_handle_gate_agrees is about the same state); '
+               'manager model is proved for any one installed transport (C05_sys_* for TCP, C05_sysT_* for any tag); in the '
+               'manager stream two of the three transports (TCP, WebSocket) are installed as scripted transports, QUIC is '
+               'compiled out of the default harness build; the address book is abstracted to the set of stored addresses (which '
+               'of them AddressStore::addresses(limit) hands out is an input validated by choice_ok; scores are C10; fewer than '
+               '64 addresses per peer so that no eviction happens); the handle call and the execution of its command happen in '
+               'one step (the asynchronous gap between them is not modelled: C05_handle_gate_agrees is about the same state); '
                'ChannelClogged is modelled as a possible result (clog) but never driven; `.await` on full protocol channels '
                'inside the DialFailure fan-out is not modelled. For TCP, WebSocket and QUIC the contract is no longer an '
                'assumption: it is proved for the model coq/Tcp (+ the per-transport front ends of Variants.v) and tied to '
@@ -155,18 +157,21 @@ ENTRY = {'coq_dir': 'C05',
                'addresses of one open / dial call name the dialled peer (every stored address ends in /p2p/<peer>; C10), a dial '
                "address that passed the manager's shape check parses in TCP (valid = true), a failure event carries an address "
                "of the call (the peer is read from the TCP ledger's g_att), one poll = poll_next until Pending with the manager "
-               'handling the batch in order (the granularity at which the TCP model is tied to tcp/mod.rs); for a second '
-               "installed transport (WebSocket) the COMPOSITION is not proved (the manager's theorems then rest on `feas` as an "
-               'assumption about the pair of transports), although each transport model satisfies its own contract (C05_tr_*); '
-               '"accept futures succeed" is still an assumption; QUIC: the code tells a dialed from an accepted connection by '
-               "its pending_dials entry (TCP / WebSocket carry the endpoint inside the negotiated connection); the model's "
-               "endpoint direction is TCP's, the two coincide for an owner that draws its ids (invariant c_conn_dial), so the "
-               "QUIC stream keeps to such owners and the dump maps QUIC's pending_dials to the model's plus the ids of pending "
-               'negotiate futures; QUIC has no log line for a failed inbound handshake (that mark is not compared for QUIC); '
-               'which of the addresses of an open are in flight at a time (max_parallel_dials / buffer_unordered; QUIC: all) is '
-               'not modelled: the model lets the environment answer any attempt that is left, a superset; /wss: the TLS layer is '
-               'environment (exercised against a plain listener: the attempt fails; F-C05g); the transport models are proved one '
-               "at a time (the multi-transport Opening is the manager model's side).",
+               'handling the batch in order (the granularity at which the TCP model is tied to tcp/mod.rs); the same composition '
+               'is proved for any ONE installed transport (C05_sysT_*, e.g. WebSocket alone); for TWO transports installed at '
+               'the same time (one connection id opened on both) the COMPOSITION is not proved: it needs one instance of the '
+               "transport model per transport with the shared counter kept in step, the manager's negotiate ledger split by "
+               "transport and the coupling lemmas redone with calls to and events of the other transport; the manager's theorems "
+               'then rest on `feas` as an assumption about the pair, although each transport model satisfies its own contract '
+               '(C05_tr_*); "accept futures succeed" is still an assumption; QUIC: the code tells a dialed from an accepted '
+               'connection by its pending_dials entry (TCP / WebSocket carry the endpoint inside the negotiated connection); the '
+               "model's endpoint direction is TCP's, the two coincide for an owner that draws its ids (invariant c_conn_dial), "
+               "so the QUIC stream keeps to such owners and the dump maps QUIC's pending_dials to the model's plus the ids of "
+               'pending negotiate futures; QUIC has no log line for a failed inbound handshake (that mark is not compared for '
+               'QUIC); which of the addresses of an open are in flight at a time (max_parallel_dials / buffer_unordered; QUIC: '
+               'all) is not modelled: the model lets the environment answer any attempt that is left, a superset; /wss: the TLS '
+               'layer is environment (exercised against a plain listener: the attempt fails; F-C05g); the transport models are '
+               "proved one at a time (the multi-transport Opening is the manager model's side).",
  'trusted_base': ['transport contract of the feasible manager stream: open/dial/negotiate calls succeed, each is answered once '
                   'unless cancelled, the reported peer is the dialled one: for TCP, WebSocket and QUIC proved for the model '
                   'coq/Tcp (C05_tcp_* / C05_tr_* / C05_ws_* / C05_quic_* theorems) and tied to the code by the transport streams '
